@@ -183,12 +183,19 @@ def pathWhitespace (cfg : Config) (p : Bytes) : Option Bytes :=
     else some (p.filter fun c => !XSPACE.mem c)                                         -- STRIP (and default)
   else some p
 
+/-- `for (t = foundHost; *t; ++t) *t = xtolower(*t);` and the `stringHasWhitespace(foundHost)` block -/
+def lowerStrip (cfg : Config) (foundHost : Bytes) : Bytes :=
+  if (foundHost.map lower).any WSPACE.mem ∧ cfg.uriWhitespace = 0 then (foundHost.map lower).filter (fun c => !XSPACE.mem c)
+  else foundHost.map lower
+
+/-- `Config.onoff.allow_underscore ? valid_hostname_chars_u : valid_hostname_chars` -/
+def hostnameSet (cfg : Config) : CharSet := if cfg.allowUnderscore then HOSTNAME_U else HOSTNAME
+
 /-- from `for (t = foundHost; *t; ++t) *t = xtolower(*t);` to the end of `parse()` -/
 def finish (cfg : Config) (ip : Bytes → IpClass) (proto : Nat) (image login foundHost : Bytes) (foundPort : Int)
     (urlpath : Bytes) : Outcome :=
-  let h1 := foundHost.map lower
-  let h2 := if h1.any WSPACE.mem ∧ cfg.uriWhitespace = 0 then h1.filter (fun c => !XSPACE.mem c) else h1
-  if cfg.checkHostnames ∧ !h2.all (if cfg.allowUnderscore then HOSTNAME_U else HOSTNAME).mem then .reject "host-chars"
+  let h2 := lowerStrip cfg foundHost
+  if cfg.checkHostnames ∧ !h2.all (hostnameSet cfg).mem then .reject "host-chars"
   else
     match appendDomain cfg h2 with
     | none => .reject "append-domain"
@@ -285,30 +292,39 @@ def convertPort (t : Bytes) : Except String Int :=
     | .ok (p, rest) => if rest.isEmpty then .ok (p : Int) else .error "port-garbage"
   else .error "unmodelled"
 
-def parseHier (cfg : Config) (ip : Bytes → IpClass) (proto : Nat) (image b : Bytes) : Outcome :=
-  let b0 := b.takeWhile (· ≠ 0)                                       -- url = B.c_str()
-  let hostRaw := b0.takeWhile fun c => !isHostDelim c
-  let afterHost := b0.dropWhile fun c => !isHostDelim c
-  let pathRaw := afterHost.takeWhile fun c => c ≠ 13 ∧ c ≠ 10
-  let urlpath := if afterHost.head? = some 47 then pathRaw else 47 :: pathRaw
-  let defPort : Int := ((defaultPort proto).getD 0 : Nat)
-  -- login
-  let (login, fh) :=
-    match splitLast 64 hostRaw with
-    | some (l, h) => (Pct.Rfc1738.unescape l, h)                              -- rfc1738_unescape(login)
-    | none => ([], hostRaw)
-  let hp := splitHostPort fh
-  -- Bug 3183 sanity check, on the buffer as it is before the port is cut off
-  let bufNow := if fh.head? = some 91 then hp.host else fh
-  if bufNow.isEmpty then .reject "no-host"
+/-- the host scan: up to `'/'`, `'?'`, `'#'`, white space or the end of the C string `url = B.c_str()` -/
+def hostScan (b : Bytes) : Bytes := (b.takeWhile (· ≠ 0)).takeWhile fun c => !isHostDelim c
+
+/-- what the host scan leaves -/
+def afterHost (b : Bytes) : Bytes := (b.takeWhile (· ≠ 0)).dropWhile fun c => !isHostDelim c
+
+/-- `urlpath`: everything up to CR, LF or the end of the C string, with `/` put in front when it does not start with one -/
+def urlPath (b : Bytes) : Bytes :=
+  if (afterHost b).head? = some 47 then (afterHost b).takeWhile fun c => c ≠ 13 ∧ c ≠ 10
+  else 47 :: (afterHost b).takeWhile fun c => c ≠ 13 ∧ c ≠ 10
+
+/-- the `strrchr(foundHost, '@')` block: (login, foundHost) -/
+def loginSplit (hostRaw : Bytes) : Bytes × Bytes :=
+  match splitLast 64 hostRaw with
+  | some (l, h) => (Pct.Rfc1738.unescape l, h)                        -- rfc1738_unescape(login)
+  | none => ([], hostRaw)
+
+/-- the `foundHost` buffer at the Bug 3183 sanity check: brackets already stripped, port not yet cut off -/
+def bufAtCheck (fh : Bytes) : Bytes := if fh.head? = some 91 then (splitHostPort fh).host else fh
+
+/-- from the bracket block to the end of `parse()` -/
+def hierAfter (cfg : Config) (ip : Bytes → IpClass) (proto : Nat) (image login fh urlpath : Bytes) : Outcome :=
+  if (bufAtCheck fh).isEmpty then .reject "no-host"
   else
-    match hp.portText with
-    | none => finish cfg ip proto image login hp.host defPort urlpath
+    match (splitHostPort fh).portText with
+    | none => finish cfg ip proto image login (splitHostPort fh).host (((defaultPort proto).getD 0 : Nat) : Int) urlpath
     | some t =>
       match convertPort t with
-      | .ok p => finish cfg ip proto image login hp.host p urlpath
-      | .error "unmodelled" => .unmodelled "port-conversion"
-      | .error e => .reject e
+      | .ok p => finish cfg ip proto image login (splitHostPort fh).host p urlpath
+      | .error e => if e = "unmodelled" then .unmodelled "port-conversion" else .reject e
+
+def parseHier (cfg : Config) (ip : Bytes → IpClass) (proto : Nat) (image b : Bytes) : Outcome :=
+  hierAfter cfg ip proto image (loginSplit (hostScan b)).1 (loginSplit (hostScan b)).2 (urlPath b)
 
 /-- `AnyP::Uri::parse(method, rawUrl)` on a freshly constructed `AnyP::Uri` -/
 def parse (cfg : Config) (ip : Bytes → IpClass) (m : Method) (url : Bytes) : Outcome :=
